@@ -18,7 +18,10 @@ char in_phrase[5];
 size_t in_plen;
 static char gs[CRYPT_GENSALT_OUTPUT_SIZE];
 static char out[CRYPT_OUTPUT_SIZE];
-static _Alignas(16) unsigned char scratch[ALG_SPECIFIC_SIZE];
+#ifndef SCR_SIZE
+#define SCR_SIZE ALG_SPECIFIC_SIZE
+#endif
+static _Alignas(16) unsigned char scratch[SCR_SIZE];   /* see crypt_method.c on SCR_SIZE */
 
 void harness(void)
 {
